@@ -1,10 +1,26 @@
 ------------------------------ MODULE MC_Session ------------------------------
 EXTENDS Session
-MCPoints == {1, 2}
+MCPoints == {1, 2, 3}
+MCSouth == {1, 3}
+MCNear == {<<1, 3>>, <<3, 1>>}
 \* behaviours for replay: every run that fills the workspace
-\* at most three fresh objects per session, so that simulated sessions spend their steps on derivations
+\* at most two fresh objects per session, so that simulated sessions spend their steps on derivations
 Count(S) == Cardinality({k \in 1..Len(hist) : hist[k][1] \in S})
 FewNew == /\ Count({"NewGeo"}) <= 2 /\ Count({"GeoNotation"}) <= 1
           /\ Count({"GeoCart", "CartGeo", "GeoTM", "TMGeo"}) <= 3 /\ Count({"Tuple"}) <= 3
+          /\ Count({"F_llh2xyz", "F_xyz2llh"}) <= 3 /\ Count({"F_geo2grid", "F_grid2geo"}) <= 4
 Emit == FewNew /\ (Len(ws) < MaxVals \/ PrintT(<<"BEH", hist>>))
+\* profiles: -simulate chooses uniformly among successor states, so the deep derivations (grid geodesics need two grid tuples of
+\* nearby points, the way back from ATRF needs a Cartesian tuple in ATRF) are rare in free sessions; a profile confines a session
+\* to the calls of one theme
+Only(S) == \A k \in 1..Len(hist) : hist[k][1] \in S
+GridActs == {"NewGeo", "GeoTM", "Tuple", "F_geo2grid", "MgaTo94", "MgaTo2020", "GridInverse", "GridDirect"}
+CartActs == {"NewGeo", "GeoCart", "Tuple", "F_llh2xyz", "To94", "To2020", "ToAtrf", "FromAtrf", "F_xyz2llh"}
+GeodActs == {"NewGeo", "Tuple", "Inverse", "Direct", "F_geo2grid", "F_grid2geo"}
+NewLe(n) == Count({"NewGeo"}) <= n /\ Count({"Tuple"}) <= n + 1 /\ Count({"GeoTM", "GeoCart"}) <= n
+NearOnly == \A k \in 1..Len(hist) : hist[k][1] = "NewGeo" => hist[k][2] \in {1, 3}
+Both == Len(hist) < 2 \/ (hist[1][1] = "NewGeo" /\ hist[2][1] = "NewGeo" /\ hist[1][2] # hist[2][2])      \* start with the two nearby points
+EmitGrid == Only(GridActs) /\ NearOnly /\ Both /\ NewLe(2) /\ Count({"F_geo2grid"}) <= 2 /\ (Len(ws) < MaxVals \/ PrintT(<<"BEH", hist>>))
+EmitCart == Only(CartActs) /\ NewLe(2) /\ Count({"F_llh2xyz"}) <= 2 /\ (Len(ws) < MaxVals \/ PrintT(<<"BEH", hist>>))
+EmitGeod == Only(GeodActs) /\ NewLe(2) /\ (Len(ws) < MaxVals \/ PrintT(<<"BEH", hist>>))
 =============================================================================
